@@ -128,6 +128,22 @@ pub assume_specification<T, A: Allocator>[ VecDeque::<T, A>::as_slices ](v: &Vec
     ensures r.0@ + r.1@ == v@,
 ;
 
+/// A-mem-bound (assumed, physical): a byte ring buffer never holds more than 2^60 bytes -- an allocation above that cannot succeed.
+/// (Rust itself guarantees 2^63 - 1; the tighter bound is what excludes overflow of `len * 9 / 8` in RollingBuffer::truncate_head.)
+pub broadcast axiom fn axiom_mem_bound<A: Allocator>(v: &VecDeque<u8, A>)
+    ensures (#[trigger] v@).len() <= 0x1000_0000_0000_0000;
+/// Rust guarantees that a slice spans at most isize::MAX bytes
+pub broadcast axiom fn axiom_slice_len_bound(s: &[u8])
+    ensures (#[trigger] s@).len() <= 0x7fff_ffff_ffff_ffff;
+pub broadcast group group_mem_bounds { axiom_mem_bound, axiom_slice_len_bound }
+
+/// `VecDeque::as_mut_slices`: the two halves of the ring, in order; writing through them writes the deque
+pub assume_specification<'a, T, A: Allocator>[ VecDeque::<T, A>::as_mut_slices ](v: &'a mut VecDeque<T, A>) -> (r: (&'a mut [T], &'a mut [T]))
+    ensures
+        r.0@ + r.1@ == old(v)@,
+        final(v)@ == final(r.0)@ + final(r.1)@,
+;
+
 // ---------------------------------------------------------------- mem::take
 pub assume_specification<T: Default>[ core::mem::take::<T> ](dest: &mut T) -> (r: T)
     ensures r == *old(dest),
